@@ -74,9 +74,11 @@ def run(chk):
     nterms_total = 0
     for (N, L, obl) in configs:
         ef = elook[N][L]; inf = ilook[obl][L]
-        if not (isinstance(ef, FuncRef) and isinstance(inf, FuncRef)):
-            raise AnalysisError('lookup tables do not hold repo functions')
-        etab = it.call(ef.mod, ef.node, [e]); itab = it.call(inf.mod, inf.node, [I])
+        # (a registry may hold the table functions themselves or callable wrappers around them: either is applied)
+        from ..core.interp import Obj as _Obj
+        if not (isinstance(ef, (FuncRef, _Obj)) and isinstance(inf, (FuncRef, _Obj))):
+            raise AnalysisError('lookup tables do not hold callables of the repository')
+        etab = it.apply(ef, [e], {}, None, None); itab = it.apply(inf, [I], {}, None, None)
         # spin states: a generic spin, the synchronous one (the very same value), and exact spin-orbit resonances given as numbers times n (modes of exactly zero frequency
         # exist there and are not skipped: their terms must not reach any output)
         res_list = [(X.const(F(3, 2)), 'spin = 3n/2')] if chk.tier == 'quick' else [(X.const(F(3, 2)), 'spin = 3n/2'), (X.const(2), 'spin = 2n'), (X.const(F(1, 2)), 'spin = n/2'), (X.const(-1), 'spin = -n'), (X.ZERO, 'spin = 0')]
